@@ -69,6 +69,9 @@ def spaces(tier, seed):
                                                 "adl": [True], "base": [True]}),
         Product("depth3-core8", {"lang": LANGS, "i": range(8), "j": range(8), "k": range(8), "sel": ["lang"], "adl": [True], "base": [True, False] if T else [True]}),
     ]
+    sp.append(Product("glued-punctuation", {"lang": LANGS, "i": range(6), "j": range(6), "glue": [",", "'", ".", "-", ":", "/", ";", ")(", "\u2019", ",,"],
+                                            "sel": ["lang"], "adl": [True], "base": [True]},
+                      note="two tokens joined by a punctuation mark without spaces"))
     if T:
         sp.append(Product("depth3-core20", {"lang": LANGS, "i": range(n20), "j": range(n20), "k": range(n20), "sel": ["lang"], "adl": [True], "base": [True]}))
         sp.append(Product("depth4-core8", {"lang": LANGS, "i": range(8), "j": range(8), "k": range(8), "l": range(8), "sel": ["lang"], "adl": [True], "base": [True]}))
@@ -82,6 +85,10 @@ def text_of(sub, c):
             return None
         p = rel[c["r"]]
         return [p, p + ".", fill[0] + (joiner or "") + p if joiner else fill[0] + p, p + joiner + "12"][c["ctx"]]
+    if sub == "glued-punctuation":
+        if c["i"] >= len(core8) or c["j"] >= len(core8):
+            return None
+        return core8[c["i"]] + c["glue"] + core8[c["j"]]
     alpha = core8 if "core8" in sub else core20
     idx = [c[k] for k in ("i", "j", "k", "l") if k in c and c[k] >= 0]
     if any(i >= len(alpha) for i in idx):
